@@ -365,6 +365,19 @@ pub fn input_ok(_prop: &str, plans: &[Plan]) -> bool {
 /// The input thread must stay responsive: sitting in a join while other threads do tens of
 /// thousands of ticks of work is a hang from the GUI's point of view.
 pub fn check_input_blocked(rec: &RunRec, out: &mut Outcome) {
+    if rec.end == super::kernel::EndReason::ExitOverdue {
+        let quit = rec.events.iter().any(
+            |e| matches!(&e.k, super::kernel::EvK::Deliver { line, .. } if line.split_whitespace().next() == Some("quit")),
+        );
+        out.violations.push(Violation::new(
+            "exit_overdue",
+            format!(
+                "{} was seen but the command loop was still blocked after other threads did {} more work ticks",
+                if quit { "quit" } else { "end-of-input" },
+                super::kernel::EXIT_ALLOW_TICKS
+            ),
+        ));
+    }
     if rec.end == super::kernel::EndReason::InputBlocked {
         out.violations.push(Violation::new(
             "input_thread_blocked",
